@@ -307,11 +307,11 @@ func runC13(c *Ctx) {
 		// Ident is the zero value
 		zero := false
 		for _, r := range Returns(ident) {
-			if k, ok := r.Results[0].(*ssa.Const); ok && k.Value == nil {
+			if k, ok := ReturnOperand(r, 0).(*ssa.Const); ok && k.Value == nil {
 				zero = true
 			}
 			// … or a literal all of whose fields are the constant 0
-			if u, ok := r.Results[0].(*ssa.UnOp); ok {
+			if u, ok := ReturnOperand(r, 0).(*ssa.UnOp); ok {
 				if al, ok := u.X.(*ssa.Alloc); ok {
 					allZero, any := true, false
 					for _, ref := range *al.Referrers() {
@@ -343,11 +343,11 @@ func runC13(c *Ctx) {
 			return DerivesLocal(v, func(x ssa.Value) bool { _, ok := x.(*ssa.Parameter); return ok })
 		}
 		for _, r := range Returns(equals) {
-			if bo, ok := r.Results[0].(*ssa.BinOp); ok && bo.Op == token.EQL {
+			if bo, ok := ReturnOperand(r, 0).(*ssa.BinOp); ok && bo.Op == token.EQL {
 				eq = fromParam(bo.X) && fromParam(bo.Y)
 			}
 			// a.Inner == b.Inner && a.Outer == b.Outer: a φ that is false unless every field comparison held
-			if phi, ok := r.Results[0].(*ssa.Phi); ok {
+			if phi, ok := ReturnOperand(r, 0).(*ssa.Phi); ok {
 				fields := map[string]bool{}
 				okShape := true
 				var walk func(v ssa.Value, depth int)
@@ -701,7 +701,7 @@ func runC13(c *Ctx) {
 			a, b := ps[len(ps)-2], ps[len(ps)-1]
 			// returns of a bare parameter must be under len(other)==0
 			for i, r := range Returns(merge) {
-				p, ok := r.Results[0].(*ssa.Parameter)
+				p, ok := ReturnOperand(r, 0).(*ssa.Parameter)
 				if !ok {
 					continue
 				}
